@@ -12,7 +12,7 @@ import (
 var intrinsicNames = map[string]bool{
 	"vU8": true, "vU16": true, "vU32": true, "vU64": true, "vBool": true,
 	"vassume": true, "vcheck": true, "vreach": true, "vpanics": true, "vpure": true,
-	"vmaporder": true, "vnote": true, "vsymtype": true, "vconcrete": true, "vconcreteInt": true, "vcheckEqInt": true, "vclockbound": true, "vreps": true, "vthreads": true, "vmerge": true,
+	"vmaporder": true, "vnote": true, "vsymtype": true, "vconcrete": true, "vconcreteInt": true, "vcheckEqInt": true, "vclockbound": true, "vreps": true, "vthorough": true, "vthreads": true, "vmerge": true,
 }
 
 func isIntrinsicName(fn *ssa.Function) bool {
@@ -514,6 +514,8 @@ func (e *Engine) harnessIntrinsic(name string, args []Value, guard T, site *ssa.
 		return nil
 	case "vreps":
 		return bv(1, 64)
+	case "vthorough":
+		return tbool(e.thorough)
 	case "vthreads":
 		// vthreads(l string, f1, f2 func()): thread-modular race analysis of two closures
 		races := e.runThreads([]ClosureV{args[1].(ClosureV), args[2].(ClosureV)})
